@@ -345,6 +345,44 @@ pub fn codec_families(seed: u64, thorough: bool, out: &mut Shards) {
                 }
             }
         }
+        // (5') run length x bit alignment: a coefficient with a unary run of r whose first bit sits at every alignment mod 8 (the
+        // first coefficient's run shifts it), in the middle and as the last coefficient; and an UNTERMINATED run of r zeros that
+        // reaches the end of the buffer exactly (a windowed reader refilling at the wrong moment mis-decodes or reads past the end)
+        {
+            let runs: Vec<usize> = if thorough { (0..=100).collect() } else { vec![2, 6, 7, 8, 9, 15, 16, 17, 31, 32, 33, 47, 48, 56, 63, 64, 65, 72, 80, 92] };
+            for &r in &runs {
+                for a in 0..8usize {
+                    if !thorough && (r + a) % 3 == 0 {
+                        continue;
+                    }
+                    for &pos in &[n / 2 + 1, n - 1] {
+                        let mut v = vec![zero; n];
+                        v[0].2 = a;
+                        v[pos] = (a % 2 == 1, (r as u32 * 37 + a as u32) % 128 | 1, r);
+                        if let Some(x) = raw_body(&v, l, &[]) {
+                            out.emit(dec_event(&x, n, "run-alignment"));
+                        }
+                    }
+                }
+            }
+            let unterminated: Vec<usize> = if thorough { (8..=94).collect() } else { (8..=94).step_by(5).collect() };
+            for &r in &unterminated {
+                let j = n - 1;
+                let mut v = vec![zero; j];
+                if total < 8 + r || !stretch(&mut v, j, total - 8 - r) {
+                    continue;
+                }
+                let mut bits = vec![];
+                for &(s, low, run) in &v {
+                    push_coeff_raw(&mut bits, s, low, run);
+                }
+                bits.push(false);
+                push_field(&mut bits, 5, 7);
+                bits.extend(std::iter::repeat(false).take(r));
+                assert_eq!(bits.len(), total);
+                out.emit(dec_event(&bits_to_bytes(&bits, l), n, "unterminated-run-to-end"));
+            }
+        }
         // (6) too few coefficients present / n mismatch
         out.emit(dec_event(&raw_body(&vec![zero; n - 1], l, &[]).unwrap(), n, "one-short"));
         out.emit(dec_event(&raw_body(&vec![zero; n], l, &[]).unwrap(), n - 1, "n-minus-one"));
@@ -358,6 +396,31 @@ pub fn codec_families(seed: u64, thorough: bool, out: &mut Shards) {
             rng.fill_bytes(&mut x);
             out.emit(dec_event(&x, n, "random"));
         }
+    }
+    // (8) compress at other sizes than the production ones, at the budget edge (a fast path for n in {512, 1024} next to a generic
+    // path), and judged compress calls in the order 1024 -> 512 -> 8 -> 1024 (state sized by the first call)
+    for &n in &[4usize, 7, 8, 64, 100, 256, 2048] {
+        if !thorough && (n == 7 || n == 100) {
+            continue;
+        }
+        let l = (9 * n + 7) / 8 + 2 + n / 16;
+        for &d in &[-8i64, -1, 0, 1, 8] {
+            let bits = (8 * l as i64 + d) as usize;
+            if bits < 9 * n {
+                continue;
+            }
+            let v = vec_with_bits(&mut rng, n, bits);
+            out.emit(comp_event(&v, l, "budget-edge-other-n"));
+            if d <= 0 {
+                out.emit(dec_event(&pack_coeffs(&v, l), n, "budget-edge-other-n-roundtrip"));
+            }
+        }
+    }
+    for &(n, l) in &[(1024usize, 1239usize), (512, 625), (8, 12), (1024, 1239), (512, 625)] {
+        let v = gaussian_vec(&mut rng, n, 165.0);
+        out.emit(comp_event(&v, l, "order-descending"));
+        out.emit(comp_event(&vec_with_bits(&mut rng, n, 8 * l + 1), l, "order-descending-too-long"));
+        out.emit(comp_event(&vec_with_bits(&mut rng, n, 8 * l), l, "order-descending-exact"));
     }
     // sequences: a failing decompress followed by a succeeding one, large n then small n, and back (state kept between calls)
     {
@@ -403,10 +466,11 @@ pub fn codec_bulk(seed: u64, cases: u64, out: &mut Shards) {
         } else {
             // a valid encoding with a few random bit flips near interesting places
             let v = gaussian_vec(&mut rng, n, 165.0);
-            let mut x = match verif::compress(&v, l) {
-                Some(x) => x,
-                None => continue,
-            };
+            // packed by the harness, not by the code under test
+            if total_bits(&v) > 8 * l {
+                continue;
+            }
+            let mut x = pack_coeffs(&v, l);
             let flips = rng.gen_range(0..3);
             for _ in 0..flips {
                 let bit = if rng.gen::<bool>() { rng.gen_range(0..8 * l) } else { 8 * l - 1 - rng.gen_range(0..600) };
